@@ -58,7 +58,7 @@ def gen_session(rng, conf, nops, geo):
     acc = 1 if rng.chance(1, 3) else 0
     fill = total <= 64 and rng.chance(1, 8)
     fops = c02mod.model_history(rng, cs, total, rng.range(2, nops + 1), fill, k)
-    if rng.chance(1, 2):
+    if not fill and rng.chance(1, 2):
         # the files written alternately, a cluster (or a little more / less) at a time: their chains interleave on the disk
         pre = []
         for rnd in range(rng.range(1, 3)):
@@ -70,7 +70,7 @@ def gen_session(rng, conf, nops, geo):
     ck = csess_corr.rand_clock(rng)
     events = [("create", 0, ck)]
     created = {0}; gone = set()
-    for f, o in fops:
+    for idx, (f, o) in enumerate(fops):
         if f in gone:
             continue
         if f not in created:
@@ -82,7 +82,7 @@ def gen_session(rng, conf, nops, geo):
         live = sorted(created - gone)
         if c < 14:
             events.append(("flush", rng.choice(live)))
-        elif c < 20 and len(live) > 1:
+        elif c < 20 and len(live) > 1 and not (fill and idx < total + 2):     # while the volume is being filled every file stays open
             g = rng.choice(live); events.append(("drop", g)); gone.add(g)
     rest = sorted(created - gone)
     while rest:
